@@ -371,6 +371,28 @@ def check_runs(chk, cfgs):
         if full["ns"] == "numpy" and full["width"] == "f64":
             lines.append(loop_line(cfg, rec, res["rng"]))
             keep.append((case, rec, betas))
+        # the same run interrupted inside a later iteration and resumed from the checkpoint DICTIONARY the callback was handed
+        # (it is still referenced by the sampler while the run goes on): the resumed schedule obeys the same clauses
+        if reuse is None and full["sampler"] in ("minipcn_smc", "smc") and done % 4 == 1 and len(betas) >= 2:
+            k = max(2, (2 * res["target"].n_like) // 3)
+            r1 = smcrun.run_smc({**cfg, "checkpoint_every": 1}, fault_at=k, record_checkpoints=True, watchdog_iters=250)
+            if r1["status"] == "fault" and r1["ckpts"]:
+                r2 = smcrun.resume_smc({**cfg, "checkpoint_every": 1}, r1["ckpts"][-1]["state"], watchdog_iters=250)
+                chk.count("run:resumed_from_live_checkpoint_dictionary")
+                case2 = {"level": "run", "cfg": {**cfg, "mode": mode}, "fault_at_likelihood_call": k, "resumed_from": "live checkpoint dictionary"}
+                if r2["status"] != "done":
+                    if not smcrun.collapsed_population(r2):
+                        chk.fail("no valid option combination raises", case2, f"resumed run: {r2.get('exc')!r}", {**sig, "clause": "raise", "resumed": True})
+                else:
+                    b2 = [float(b) for b in r2["sampler"].history.beta]
+                    if any(y <= x for x, y in zip([0.0] + b2, b2)):
+                        chk.fail("strictly increasing", case2, f"beta history of the resumed run {b2}", {**sig, "clause": "monotone", "resumed": True})
+                    if any(not (0.0 < b <= 1.0) for b in b2):
+                        chk.fail("within (0,1]", case2, f"beta history of the resumed run {b2}", {**sig, "clause": "range", "resumed": True})
+                    pop_beta = getattr(r2["sampler"].history.sample_history[-1], "beta", None) if r2["sampler"].history.sample_history else None
+                    if (b2 and b2[-1] != 1.0 or (pop_beta is not None and float(pop_beta) != 1.0)) and not (cap is not None and len(b2) >= cap):
+                        chk.fail("ends exactly at 1", case2, f"resumed run: last beta {b2[-1] if b2 else None!r}, final population at temperature {pop_beta!r}",
+                                 {**sig, "clause": "end", "resumed": True})
     reps = drv.batch(lines)
     for (case, rec, betas), rep in zip(keep, reps):
         if not rep.ok:
